@@ -406,6 +406,24 @@ def gen_config(seed: int, tier: str = "quick") -> Dict[str, Any]:
         if rng.random() < 0.2:
             s["any_inputs"] = True
             s["meta_style"] = s.get("meta_style", 0) if (s["type"] == "hybrid" and s.get("meta_style", 0) in (0, 1)) else 0
+    # child entities of another model (attributes renamed with the prefix c): an entity is
+    # validated against its own model, not against its parent's
+    kids = rng.random() < 0.35
+    if kids:
+        for s in sims:
+            if rng.random() < 0.6 and not s.get("any_inputs"):
+                s["child"] = True
+        for c in sc["conns"]:
+            if c.get("async"):
+                continue
+            if sims[c["src"]].get("child") and rng.random() < 0.4:
+                c["sc"] = True
+                c["pairs"] = [["c" + p[0], p[1]] for p in c["pairs"]]
+                if c.get("init") is not None:
+                    c["init"] = {"c" + k_: v_ for k_, v_ in c["init"].items()}
+            if sims[c["dst"]].get("child") and rng.random() < 0.4:
+                c["dc"] = True
+                c["pairs"] = [[p[0], "c" + p[1]] for p in c["pairs"]]
     illegal = []
     for _ in range(rng.choice([1, 1, 2, 3])):
         a, b = rng.randrange(n), rng.randrange(n)
@@ -440,6 +458,26 @@ def gen_config(seed: int, tier: str = "quick") -> Dict[str, Any]:
             c["shift"] = rng.choice([0, 1])
             if c["shift"]:
                 c["init"] = {ua: "initM"}
+        if kids and rng.random() < 0.6:
+            # the attribute exists, but in the model of the parent resp. of the child
+            which = rng.choice(["src_child_parent_attr", "src_parent_child_attr",
+                                "dst_child_parent_attr", "dst_parent_child_attr"])
+            ok = True
+            c = {"src": a, "se": se, "dst": b, "de": de, "pairs": [[ua, va]], "shift": 0, "weak": False,
+                 "illegal_kind": which}
+            if which == "src_child_parent_attr" and sa.get("child"):
+                c["sc"] = True
+            elif which == "src_parent_child_attr" and sa.get("child"):
+                c["pairs"] = [["c" + ua, va]]
+            elif which == "dst_child_parent_attr" and sb.get("child"):
+                c["dc"] = True
+            elif which == "dst_parent_child_attr" and sb.get("child") and not sb.get("any_inputs"):
+                c["pairs"] = [[ua, "c" + va]]
+            else:
+                ok = False
+            if ok:
+                illegal.append(c)
+                continue
         illegal.append(c)
     # insert at random positions
     for c in illegal:
@@ -450,7 +488,7 @@ def gen_config(seed: int, tier: str = "quick") -> Dict[str, Any]:
     for c in sc["conns"]:
         pairs = []
         for p in c["pairs"]:
-            k = (c["src"], c.get("se", 0), c["dst"], c.get("de", 0), p[1])
+            k = (c["src"], c.get("se", 0), bool(c.get("sc")), c["dst"], c.get("de", 0), bool(c.get("dc")), p[1])
             if k in seen:
                 continue
             seen.add(k)
